@@ -395,8 +395,15 @@ def rule_MP8(rep, prog, q):
     rep.require(rid, in_loop and ph is not None and ph.op == "phi", c.loc, fn.name, "redirect-release-not-a-loop",
                 "_dispatch_async_redirect_invoke: the intermediate-level release is not a loop over a level variable", sample={"release": c.loc})
     # the stop test compares the level variable itself with the queue the item ran on
-    tests = [i for i in fn.all_insts() if i.op == "icmp" and i.d["pred"] in ("eq", "ne") and
-             {root_ptr(fn, i.ops[0]), root_ptr(fn, i.ops[1])} == {lv, ("i", cur[0].id)}]
+    # (the loop may be written while(...) - the test is on the phi - or rotated to if(...) do{...}while(...) - the tests are on the values that
+    # flow into the phi along each edge; in both forms the value tested is the value that becomes rq, never a neighbour level)
+    incoming = [root_ptr(fn, v) for v, frm in ph.ops] if (ph is not None and ph.op == "phi") else []
+    def tests_of(val):
+        return [i for i in fn.all_insts() if i.op == "icmp" and i.d["pred"] in ("eq", "ne") and
+                {root_ptr(fn, i.ops[0]), root_ptr(fn, i.ops[1])} == {val, ("i", cur[0].id)}]
+    tests = tests_of(lv)
+    if not tests and incoming and all(tests_of(v) for v in incoming):
+        tests = [t for v in incoming for t in tests_of(v)]
     rep.require(rid, bool(tests) and any(fn.inst_reaches(t, c) for t in tests), c.loc, fn.name, "redirect-release-tests-other-level",
                 "_dispatch_async_redirect_invoke: the loop releases level rq but its stop test does not compare rq itself with the queue the item ran on "
                 "(it looks one level ahead or behind): the innermost intermediate queue keeps one unit of width per item and eventually never runs a "
